@@ -267,4 +267,10 @@ func runC12(t *Trace, r *Rng, tier string, _ []string) {
 		scen = 80
 	}
 	c14Scripted(t, r, root, scen)
+	// Close arriving at chosen points of the persister's and merger's work
+	nClose := 9
+	if tier == "thorough" {
+		nClose = 45
+	}
+	c12CloseAtPoints(t, r, nClose)
 }
